@@ -133,7 +133,7 @@ def _reorders(e: Call, order: list[Expr], def_use: DefineUseAnalysis) -> str | N
     )
 
 
-def _refuses(e: Call, *, in_while_cond: bool, in_conditional: str | None = None, reorders: str | None = None) -> str | None:
+def _refuses(e: Call, *, in_while_cond: bool, in_conditional: str | None = None, reorders: str | None = None, captures: str | None = None) -> str | None:
     """Why the call *e* cannot be inlined, or `None` where it can.
 
     Decided from the call and the callee alone, so a listing and the rewrite
@@ -159,6 +159,8 @@ def _refuses(e: Call, *, in_while_cond: bool, in_conditional: str | None = None,
             f'`{e.fn.name}` has {n_rets} return statements, and inlining needs '
             f'exactly one, trailing'
         )
+    if captures is not None:
+        return captures
     return reorders
 
 
@@ -210,6 +212,40 @@ class _FuncInline(SiteRewriter):
         self.free_vars = set(func.free_vars)
         self.env = func.env.copy()
 
+    def _callee_ast(self, e: Call) -> FuncDef:
+        """The callee as it would be spliced: with its own calls inlined first
+        when inlining recursively.  Acyclicity is guaranteed by the `CallGraph`
+        guard in `FuncInline.apply`, so this terminates."""
+        assert isinstance(e.fn, Function)
+        if not self.recursive:
+            return e.fn.ast
+        if e.fn.ast not in self.inlined:
+            # first time we see this callee, inline it and cache the result
+            self.inlined[e.fn.ast] = FuncInline.apply(e.fn.ast, recursive=True)
+        return self.inlined[e.fn.ast]
+
+    def _captures(self, e: Call) -> str | None:
+        """Why the names the callee captures keep its body from being spliced
+        in here, or `None`.  Decided before the site is counted: a call that
+        cannot be inlined is a refusal, not a site that raises when aimed at."""
+        assert isinstance(e.fn, Function)
+        if len(Reachability.analyze(e.fn.ast).ret_stmts) != 1:
+            return None     # refused for that already, and nothing to splice
+        for name in sorted(self._callee_ast(e).free_vars, key=str):
+            if name in self.bound:
+                return (
+                    f'`{e.fn.name}` reads the captured `{name}`, and `{name}` is a '
+                    f'local variable here: spliced in, the read would see that variable'
+                )
+            if str(name) in self.func.env and not _same_captured(
+                self.func.env.get(str(name)), e.fn.env.get(str(name))
+            ):
+                return (
+                    f'`{e.fn.name}` and this function capture different values '
+                    f'under the name `{name}`'
+                )
+        return None
+
     def _visit_call(self, e: Call, ctx: _Ctx):
         if not isinstance(e.fn, Function):
             # not calling a function so no inlining
@@ -222,6 +258,7 @@ class _FuncInline(SiteRewriter):
         reason = _refuses(
             e, in_while_cond=ctx.in_while_cond, in_conditional=ctx.in_conditional,
             reorders=_reorders(e, self._order, self.def_use),
+            captures=self._captures(e),
         )
         if reason is not None:
             self.refused.append((e, reason))
@@ -239,21 +276,11 @@ class _FuncInline(SiteRewriter):
             self.found_exprs.append(e)
             return super()._visit_call(e, ctx)
 
-        # Inline the callee body.  Acyclicity is guaranteed by the
-        # `CallGraph` guard in `FuncInline.apply`, so this terminates.
+        # Inline the callee body.
+        ast = self._callee_ast(e)
         if self.recursive:
-            if e.fn.ast in self.inlined:
-                # cached
-                ast = self.inlined[e.fn.ast]
-            else:
-                # first time we see this callee, inline it and cache the result
-                ast = FuncInline.apply(e.fn.ast, recursive=True)
-                self.inlined[e.fn.ast] = ast
-
             def_use = DefineUse.analyze(ast)
             self.gensym.reserve(*def_use.names())
-        else:
-            ast = e.fn.ast
 
         # the names the callee captures stay in use in the spliced body: no
         # renamed local and no temporary may be named like one of them
